@@ -110,6 +110,8 @@ func (w *World) do(st Step) bool {
 		return w.sendFrame(st.C, []byte(st.Raw))
 	case "close":
 		return w.closeClient(st.C)
+	case "stall":
+		return w.stall(st.C)
 	case "conn":
 		if g := w.findGate("conn", st.C); g != nil {
 			w.release(g)
@@ -398,6 +400,9 @@ func (w *World) Drain() bool {
 
 // Quiescent drains and records the facts the observer needs at quiescence.
 func (w *World) Quiescent() {
+	w.resumeStalled()
+	synctest.Wait()
+	w.drainFrames()
 	ok := w.Drain()
 	w.add(w.stateRec("quiescent", ok))
 }
